@@ -196,6 +196,7 @@ func c05KeyOf(lt uint64, e c05Ev) c05Key {
 func c05Bytes(e c05Ev) []byte { return c05Pays[e.Pay%len(c05Pays)] }
 
 func bodyC05(c c05Case, x *vkit.Ctx) {
+	volleyReset(len(c.Steps))
 	if c.N < 1 {
 		x.Inconclusive("bad case: N<1")
 		return
